@@ -140,3 +140,67 @@ Example C06_agreeing_example :
   length (filter (fun o => match s_bind o with BLocal _ => true | BGlobal n => negb (Nat.eqb (length (global_writes (spec_ws [(a_lua, src_ok)]) n)) 0) end)
                   (bind_file (chunk_of src_ok))) = 27%nat.
 Proof. vm_compute. repeat split; reflexivity. Qed.
+
+(* ================================================================== positive theorems (agent traverse-bind)
+   The traversal resolver IS Lua's binder outside the refuted classes.  Guards (all boolean, computed from the chunk):
+     tb_shape P        : list lengths of parser output (SIf one block per condition; SLocal one Loc per name and no more
+                         initialisers than names) - NO fragment restriction: tables, indexing, methods, goto are covered;
+     tr_clean P n      : replaying the traversal, IsCorrectPosition accepts the newest same-named variable at every
+                         look-up of n (the Loc test agrees with program order for n; fails exactly on class B4 and on
+                         the C04 column-restart layouts);
+     classA_ok os n    : no occurrence of n is tagged CB3 / CB4 (Spec/LuaScope.v);
+     decl_layout_ok    : every occurrence bound to the declaration is spelled with the queried name and no use lies inside
+                         the declaration's own Loc;   decl_self_ok : the declaration occurrence of d sits at d. *)
+From Coq Require Import Permutation.
+From LH Require Import Proofs.TraverseBindDefs Proofs.TraverseBind Proofs.TraverseBindRefs.
+
+(* core: the logged occurrences of the traversal correspond one-to-one (same Loc, same name, read/write role) to the
+   non-declaration occurrences of the reference binder, and every occurrence of a position-clean name that is not
+   tagged CB3 is resolved to the declaration Lua binds it to (o_res = Some d <-> s_bind = BLocal d, else global) *)
+Theorem C06_traversal_is_binder : forall P, tb_shape P = true ->
+  exists os', Permutation (nd (bind_file P)) os' /\ Forall2 (occ_agrees P) (fi_occs (analyse P)) os'.
+Proof. exact traverse_bind_core. Qed.
+Print Assumptions C06_traversal_is_binder.
+
+(* for a LOCAL target: the answer is the declaration followed by exactly (as a set) the uses the reference binder
+   binds to that declaration *)
+Theorem C06_refs_local_partial : forall P w f name line col v,
+  tb_shape P = true -> tr_clean P name = true -> classA_ok (bind_file P) name = true ->
+  decl_layout_ok (bind_file P) name (v_loc v) = true ->
+  resolve_at w f (analyse P) name line col = TLocal v ->
+  exists l', references_at MRefs w f (analyse P) name line col = Some ((f, v_loc v) :: l') /\
+             forall x, In x l' <-> In x (spec_uses P f (v_loc v)).
+Proof. exact (refs_local_classA MRefs). Qed.
+Print Assumptions C06_refs_local_partial.
+
+(* ... hence set equality with spec_refs / same_var at any reference occurrence o bound to that declaration *)
+Theorem C06_refs_local_same_var_partial : forall P w f name line col v o,
+  tb_shape P = true -> tr_clean P name = true -> classA_ok (bind_file P) name = true ->
+  decl_layout_ok (bind_file P) name (v_loc v) = true -> decl_self_ok (bind_file P) (v_loc v) = true ->
+  resolve_at w f (analyse P) name line col = TLocal v ->
+  s_bind o = BLocal (v_loc v) ->
+  exists l, references_at MRefs w f (analyse P) name line col = Some l /\
+            forall x, In x l <-> In x (spec_refs [(f, bind_file P)] f o).
+Proof. exact (refs_local_same_var MRefs). Qed.
+Print Assumptions C06_refs_local_same_var_partial.
+
+(* the statement aimed at: the layout guards discharged from Laid.  Missing: `Laid P -> classA_ok .. n -> tr_clean P n`
+   and `Laid P -> decl_layout_ok / decl_self_ok`, and C05 (the position resolver returns the declaration Lua binds the
+   cursor's occurrence to) *)
+Definition C06_refs_local_full : Prop := forall P w f name line col v o,
+  in_fragment P = true -> Laid P -> classA_ok (bind_file P) name = true ->
+  resolve_at w f (analyse P) name line col = TLocal v -> s_bind o = BLocal (v_loc v) ->
+  exists l, references_at MRefs w f (analyse P) name line col = Some l /\
+            forall x, In x l <-> In x (spec_refs [(f, bind_file P)] f o).
+
+(* non-vacuity: C05's example program satisfies every guard at each of its 25 occurrences bound to a local *)
+Example C06_local_guards_nonvacuous :
+  let P := chunk_of src_ok in
+  tb_shape P = true /\
+  forallb (fun s => tr_clean P (s_name s) && classA_ok (bind_file P) (s_name s)
+                    && match s_bind s with
+                       | BLocal d => decl_layout_ok (bind_file P) (s_name s) d && decl_self_ok (bind_file P) d
+                       | BGlobal _ => true
+                       end) (bind_file P) = true /\
+  length (filter (fun s => match s_bind s with BLocal _ => true | BGlobal _ => false end) (bind_file P)) = 25%nat.
+Proof. vm_compute. repeat split; reflexivity. Qed.
